@@ -114,6 +114,7 @@ def run(module_path, cfg_text, workdir, workers=1, env=None, timeout=600, covera
     with open(cfg, "w") as f:
         f.write(cfg_text)
     cmd = java_cmd(xmx)
+    cmd.insert(1, "-Djava.io.tmpdir=" + os.path.abspath(workdir))      # (TLC leaves an empty tlc-<n> directory per run in the JVM's tmpdir)
     if parallel_gc:
         cmd = [c if c != "-XX:+UseSerialGC" else "-XX:+UseParallelGC" for c in cmd]
     cmd += ["-workers", str(workers), "-metadir", os.path.join(workdir, "meta_" + name), "-noGenerateSpecTE", "-nowarning",
